@@ -1984,6 +1984,22 @@ def unit_linecount(inj, scratch):
     return dict(functions=[r], dropped=[d], assumptions=['the scripted reader stands for std::io::BufReader<File>: fill_buf yields the unread rest of the current chunk, an empty slice only at the end of the file, or an error; consume(n) advances by n'])
 
 
+def unit_zipdate(inj, scratch):
+    """util::datetime::to_local_datetime: whole function verbatim on a calendar shim with a scripted clock."""
+    frag_begin(inj)
+    s = src('src/util/datetime.rs', scratch)
+    it = s.fn('to_local_datetime')
+    whole = s.text[it['sig_start']:it['end']]
+    sig = re.sub(r'\s+', ' ', s.text[it['sig_start']:it['open']]).strip()
+    if sig != 'pub fn to_local_datetime(dt: &zip::DateTime) -> NaiveDateTime':
+        raise AnchorLost(f'to_local_datetime: signature changed shape: {sig!r}')
+    text = 'pub mod zipdate {\n' + H('frag_zipdate_prelude.rs') + '\n// ---- verbatim ----\n' + whole + '\n' + H('frag_zipdate.kani.rs') + '\n}\n'
+    inj.new_file(FRAG_FILE, text)
+    r, d = frag_record('zipdate::to_local_datetime', 'src/util/datetime.rs', 'fn to_local_datetime (whole function, verbatim, on a calendar shim)', whole, whole,
+                       ['chrono NaiveDate / NaiveDateTime / Local and zip::DateTime -> stand-ins with the same method names'], 'chrono itself, the system clock and time zone')
+    return dict(functions=[r], dropped=[d], assumptions=['the calendar shim has the semantics chrono documents: from_ymd_opt / and_hms_opt / with_year / with_month / with_day / with_hour / with_minute / with_second return None exactly when the resulting date or time of day does not exist (proleptic Gregorian calendar; leap seconds not modelled); NaiveDateTime::default() is 1970-01-01 00:00:00'])
+
+
 def unit_wbuf(inj, scratch):
     rel = 'src/util/wbuf.rs'
     s = src(rel, scratch)
